@@ -11,7 +11,7 @@
    elements with w < 0 and a tiny vector part (the defect repaired by fix edde36d). *)
 From Coq Require Import Reals List Lra Lia.
 From Manif Require Import Scalar Mat Group RInst Generic LieSpec SO2 SE2 SO3 Rn SE2Proofs SO3Proofs RnProofs Log_SE2 Approx_Inst SE3 Log_SO3 Log_SE3 LogExp_SO3 LogExp_SE3 SE23 LogExp_SE23 Log_SE23 SGal3 LogExp_SGal3
-  Bundle BundleLaws BundleInst InterpProofs InterpInst BundleExpLog.
+  Bundle BundleLaws BundleInst InterpProofs InterpInst BundleExpLog BundleLogExp.
 Import ListNotations.
 Local Open Scope R_scope.
 
@@ -126,3 +126,30 @@ Proof.
   replace (1 / sqrt 2 * (1 / sqrt 2)) with (1 / (sqrt 2 * sqrt 2)) by (field; apply Rgt_not_eq; apply sqrt_lt_R0; lra).
   rewrite sqrt_sqrt by lra. lra.
 Qed.
+
+(* Bundles, the other direction: log(exp t) = t lifts from the element groups to a Bundle of ANY layout over ANY scalar
+   (D i: the tangents of the i-th element on which it holds; V i: elements of the right size containing their exps). *)
+Theorem C03_Bundle_log_exp (F : Sc) (L : list (GroupOps F)) (d : GroupOps F) (V D : nat -> list (K F) -> Prop) :
+  (forall i X, (i < length L)%nat -> V i X -> length X = g_rep (nth i L d)) ->
+  (forall i t, (i < length L)%nat -> D i t -> length t = g_dof (nth i L d)) ->
+  (forall i t, (i < length L)%nat -> D i t -> V i (g_exp (nth i L d) t)) ->
+  (forall i X, (i < length L)%nat -> V i X -> length (g_log (nth i L d) X) = g_dof (nth i L d)) ->
+  (forall i t, (i < length L)%nat -> D i t -> g_log (nth i L d) (g_exp (nth i L d) t) = t) ->
+  forall ts, tangent_parts F L D ts -> g_log (Bundle L) (g_exp (Bundle L) (concat ts)) = concat ts.
+Proof. intros H1 H2 H3 H4 H5. exact (bundle_log_exp F L d V H1 D H2 H3 H4 H5). Qed.
+Print Assumptions C03_Bundle_log_exp.
+(* discharged for the layout Bundle<SO3, R3, SE3>: every rotation below pi on the closed-form branches *)
+Theorem C03_Bundle_SO3_R3_SE3_log_exp eps (H : 0 < eps) x y z p q r a b c u v w :
+  rot_ok eps x y z -> rot_ok eps u v w ->
+  g_log (Bundle (L3 eps)) (g_exp (Bundle (L3 eps)) ([x; y; z] ++ [p; q; r] ++ [a; b; c; u; v; w])) =
+  [x; y; z] ++ [p; q; r] ++ [a; b; c; u; v; w].
+Proof.
+  intros H1 H2. apply (bundle3_log_exp eps H [[x; y; z]; [p; q; r]; [a; b; c; u; v; w]]).
+  split; [reflexivity|]. intros i Hi. destruct i as [|[|[|i]]]; [| | |cbn in Hi; lia]; cbn.
+  - exists x, y, z. split; [reflexivity|exact H1].
+  - exists p, q, r. reflexivity.
+  - exists a, b, c, u, v, w. split; [reflexivity|exact H2].
+Qed.
+Print Assumptions C03_Bundle_SO3_R3_SE3_log_exp.
+Example C03_Bundle_log_exp_nonvacuous : rot_ok (1 / 100) (PI / 2) 0 0.
+Proof. exact C03_log_exp_nonvacuous. Qed.
